@@ -163,17 +163,27 @@ EXTRA = {
            "The obligation inventory is complete: reader-thread bodies that no analysed context interprets (line loop, connect loop, "
            "set-up and printing glue) are scanned and must contain no panic site of their own (Assert terminator, Option unwrap, "
            "indexing, explicit panic; Result::expect only on lock / file-open / write-to-String results).",
-    "C03": "The table updater is described independently of its style (entry/and_modify/or_insert, match on Entry, get_mut/insert).",
+    "C02": "str::from_utf8 / String::from_utf8 on the way to the gate are findings (partial: a line with a stray non-UTF-8 byte has no image).",
+    "C03": "The table updater is described independently of its style (entry/and_modify/or_insert, match on Entry, get_mut/insert). "
+           "Only the zero address is dropped: the kept addresses are all of 1..2^24-1 and the only tests on the address are comparisons with zero.",
+    "C09": "The TC19 contexts under -U -R are compared with their -U twins (vrate / grspeed / track alike).",
+    "C10": "In every context of a format without a CA field the recorded capability (what the Comm-B gate reads) is unchanged.",
     "C07": "In every decode context that is not a DF17/18 TC1-4 squitter the emitter category is not written.",
-    "C08": "Slot coherence: the CPR fields and the receive time of a slot are written under one condition that does not depend on the row's previous contents.",
-    "C12": "The sweep may sit in a helper: the call chain from the reader to retain is followed, the time and the limit must be handed through unchanged.",
-    "C13": "When the reader bypasses get_message, a per-line function that receives &mut of loop-carried state is reported.",
+    "C08": "Slot coherence: the CPR fields and the receive time of a slot are written under one condition that does not depend on the row's previous contents. "
+           "The zone test is read from the MIR: the two arguments of the NL function are different expressions, neither picked by a run-time index.",
+    "C12": "The sweep may sit in a helper: the call chain from the reader to retain is followed, the time and the limit must be handed through unchanged. "
+           "Only the sweep's own step / reset functions write the sweep counter (crate-wide inventory of field stores, &mut borrows and whole-struct stores).",
+    "C13": "When the reader bypasses get_message, a per-line function that receives &mut of loop-carried state is reported. A panic inside the "
+           "gate on any junk-line context (including a definite one) is a violation: it ends processing early.",
     "C14": "One-character cells must be provably one character wide (value ranges from the hulls of all decode contexts); text is never cut by a precision; "
            "the header lines are obtained by constant propagation through the header builder for each flag set.",
     "C15": "Comparators that dispatch on a captured enum are specialised to the variant seen in the abstract per-letter run; the row vector may be re-collected through a projecting map.",
     "C16": "A -f decision of unrecognised shape is evaluated (crate functions, closures and std methods by E2 on constants) for DF 0..31 against 124 lists incl. repeats and must coincide with membership.",
     "C17": "Every placeholder that prints Plane.reg uses Display without precision (the code is shown whole).",
-    "C18": "No other mutable local of the connect function is carried from one connection into the next.",
+    "C18": "No other mutable local of the connect function is carried from one connection into the next. The connect call may sit in a helper "
+           "returning io::Result (a failed connect must come back as Err) and the decision may be taken on an Err-preserving chain (and_then / map / "
+           "inspect_err / map_err / `?`); the line reader may be called from a closure of the loop function. The connection-handling code (connect "
+           "function, helpers, the function owning the line loop) has no panic site of its own.",
     "C19": "With and without -U the stores also depend on the row's previous contents in the same way (path-condition atoms / control dependences over pre-state).",
 }
 
